@@ -31,6 +31,9 @@ func init() {
 		for _, s := range []string{"full", "partial", "extra", "err", "panic", "empty"} {
 			scs = append(scs, sc{"Get‖BulkGet(" + s + ")", plain, nil, [][]string{{"load 1 val"}, {"bulk 1,2 " + s}}})
 		}
+		// the bulk loader volunteers the very key whose load by the other thread this BulkGet is waiting for
+		scs = append(scs, sc{"Get‖BulkGet(extra=1)", plain, nil, [][]string{{"load 1 val"}, {"bulk 1,2 extra=1"}}})
+		scs = append(scs, sc{"BulkGet‖BulkGet(extra=2)", plain, nil, [][]string{{"bulk 2,3 full"}, {"bulk 1,2 extra=2"}}})
 		scs = append(scs, sc{"BulkGet‖BulkGet", plain, nil, [][]string{{"bulk 1,2 full"}, {"bulk 2,1 partial"}}})
 		scs = append(scs, sc{"BulkGet‖BulkGet(overlap)", plain, []string{"set 3"}, [][]string{{"bulk 1,2,3 full"}, {"bulk 2,3,1 err"}}})
 		scs = append(scs, sc{"Get‖Get‖Refresh", ref, nil, [][]string{{"load 1 val"}, {"load 1 val"}, {"refresh 1 val"}}})
